@@ -36,8 +36,12 @@ def exhaustive_type_table(eng):
                 for res in range(4):
                     if kind in ("id", "utf"):
                         leafs = [("L", (kind, gen.gen_utf8(r, n))) for n in (res, res + 4, res + 252)]
+                        if fl == 0x40 and res == 0:
+                            leafs += [("L", (kind, b)) for b in gen.text_special_forms()]
                     elif kind in ("uri", "oct"):
                         leafs = [("L", (kind, r.bytes(n))) for n in (res, res + 4, res + 4092)]
+                        if fl == 0x40 and res == 0:
+                            leafs += [("L", (kind, b)) for b in gen.text_special_forms()]
                     elif kind == "ae":
                         leafs = [("L", (kind, b"1234567890123456"[: n])) for n in (1 + res, 5 + res, 9 + res, 12 + res) if n <= 15]
                         leafs += [("L", (kind, b"+123456789012345"[: n])) for n in (1 + res, 6 + res, 12 + res) if n <= 15]
@@ -344,6 +348,25 @@ def check_C02(chk, tier, seed):
     for k, l in enumerate(stage2):
         _, did, fx = l.split()
         var_lines.append(f"XD {did} {fx}" if k % 2 == 0 else f"XO {did} {1 + (k // 2) % 5} {fx}")
+    # ... and three at a time back to back in one reader, decoded one after the other: the third comes out as it does alone
+    multi, multi_k = [], []
+    by_dict = {}
+    for k, l in enumerate(stage2):
+        by_dict.setdefault(l.split()[1], []).append(k)
+    for did, ks in by_dict.items():
+        # (only encodings that round-trip exactly on their own: those are consumed to their last octet)
+        ks = [k for k in ks if impl2[k].startswith("OK ") and len(stage2[k]) < 20000 and msg_text(impl2[k]) == msg_text(impl[idx[k]])
+              and impl2[k][impl2[k].rindex(" ENC "):] == impl[idx[k]][impl[idx[k]].rindex(" ENC "):]]
+        for j in range(0, len(ks) - 2, 3):
+            a, b, c3 = ks[j], ks[j + 1], ks[j + 2]
+            multi.append(f"XM {did} 3 {stage2[a].split()[2]} {stage2[b].split()[2]} {stage2[c3].split()[2]}")
+            multi_k.append(c3)
+    implm, _ = eng.run(multi) if multi else ([], [])
+    for l, k, b in zip(multi, multi_k, implm):
+        chk.count("stage2-reader:XM")
+        if b != impl2[k]:
+            chk.violation("decode(encode(m)) depends on where the frame sits in its reader: three encodings back to back in one reader, decoded one after "
+                          "the other - the third does not come out as it does alone", dict(case=short(l, 6000), alone=short(impl2[k], 3000), third=short(b, 3000)))
     implv, _ = eng.run(var_lines)
     for k, (l, a, b) in enumerate(zip(var_lines, impl2, implv)):
         chk.count("stage2-reader:" + l.split()[0])
@@ -530,6 +553,9 @@ def value_position_sweeps(eng, tier):
         out.append(("address-family-length", "g", frame(a, bytes(n)), False))
     # the address forms a library might want to "normalise" (IPv4-mapped / -compatible IPv6, NAT64, 6to4, unspecified, all ones,
     # loopback, link-local, multicast; 0.0.0.0, broadcast, loopback): each is accepted and is the value its octets say
+    for ty in ("utf", "id", "uri", "oct"):
+        for b in gen.text_special_forms():
+            out.append(("text-special-forms", "g", frame(by[ty]["code"], b), True))
     for b in gen.ipv6_special_forms():
         out.append(("address-special-forms", "g", frame(a, gen.be(2, 2) + b), True))
         if "ip6" in by:
@@ -705,6 +731,15 @@ def check_C04(chk, tier, seed):
     for d in depths:
         fam.append(("nest", "g", gen.nested_groups_frame(d, grp["code"]), False))
         fam.append(("nest-vendor", "g", gen.nested_groups_frame(min(d, 80000), grp["code"] + 1000, vendor=10415), False))
+    # one group with 10^5 small members, and a message with 10^5 small top-level AVPs (about 1 MiB each): work that grows faster
+    # than linearly in the number of AVPs (a length recomputed per member, a list rebuilt per AVP) shows as a decode that does
+    # not come back within the per-case watchdog
+    octd = [d for d in eng.dicts["g"].live() if d["ty"] == "oct" and d["vendor"] is None and 1000 <= d["code"] < 1100][0]
+    nmem = 100000 if tier == "quick" else 1000000
+    member = gen.be(octd["code"], 4) + b"\0" + gen.be(9, 3) + b"m\0\0\0"
+    hdr = lambda n: bytes([1]) + gen.be(20 + n, 3) + bytes([0x80]) + gen.be(272, 3) + gen.be(4, 4) + gen.be(1, 4) + gen.be(2, 4)
+    fam.append(("many-members", "g", hdr(8 + nmem * len(member)) + gen.be(grp["code"], 4) + b"\0" + gen.be(8 + nmem * len(member), 3) + member * nmem, True))
+    fam.append(("many-members", "g", hdr(nmem * len(member)) + member * nmem, True))
     cases = [f"X {did} {xb(f)}" for (_, did, f, _) in fam]
     impl = core.run_sharded([eng.harness, "codec"], eng.prelude, cases, timeout=900)
     small = [i for i, (_, _, f, _) in enumerate(fam) if len(f) <= 200000]
